@@ -52,10 +52,10 @@ theorem gcStep_cursor (acc : Ctx × Option Nat) (k : Nat) {l : List Nat} (h : JO
     · rfl
   · rfl
 
-theorem gc_fields (c : Ctx) (a : Option Nat) {l : List Nat} (h : JO c l a) (hc : a = none ∨ ∃ x, a = some x ∧ x ∈ l) :
-    (collectGarbage c a).1.highwater = c.highwater ∧ (collectGarbage c a).1.highpassed = c.highpassed ∧
-    (collectGarbage c a).1.maxSize = c.maxSize ∧ (collectGarbage c a).1.status = c.status ∧ (collectGarbage c a).2 = a := by
-  unfold collectGarbage
+theorem gcCells_fields (c : Ctx) (a : Option Nat) {l : List Nat} (h : JO c l a) (hc : a = none ∨ ∃ x, a = some x ∧ x ∈ l) :
+    (gcCells c a).1.highwater = c.highwater ∧ (gcCells c a).1.highpassed = c.highpassed ∧
+    (gcCells c a).1.maxSize = c.maxSize ∧ (gcCells c a).1.status = c.status ∧ (gcCells c a).2 = a := by
+  unfold gcCells
   generalize (List.range (c.size - 1)) = ks
   have : ∀ (ks : List Nat) (acc : Ctx × Option Nat), JO acc.1 l acc.2 → acc.2 = a →
       (ks.foldl gcStep acc).1.highwater = acc.1.highwater ∧ (ks.foldl gcStep acc).1.highpassed = acc.1.highpassed ∧
@@ -71,11 +71,21 @@ theorem gc_fields (c : Ctx) (a : Option Nat) {l : List Nat} (h : JO c l a) (hc :
       exact ⟨g1.trans f1, g2.trans f2, g3.trans f3, g4.trans f4, g5⟩
   exact this ks (c, a) h rfl
 
+theorem gc_fields (c : Ctx) (a : Option Nat) {l : List Nat} (h : JO c l a) (hc : a = none ∨ ∃ x, a = some x ∧ x ∈ l) :
+    (collectGarbage c a).1.highwater = c.highwater ∧ (collectGarbage c a).1.highpassed = c.highpassed ∧
+    (collectGarbage c a).1.maxSize = c.maxSize ∧ (collectGarbage c a).1.status = c.status ∧ (collectGarbage c a).2 = a := by
+  obtain ⟨g1, g2, g3, g4, g5⟩ := gcCells_fields c a h hc
+  have hj := gcCells_JO c a h
+  rw [collectGarbage_fst]
+  refine ⟨g1, g2, g3, g4, ?_⟩
+  unfold collectGarbage
+  rw [offDeleted_live hj (by rw [g5]; exact hc), g5]
+
 /-- fields of the context without the cursor restriction (the cursor may move, the registers do not) -/
 theorem gc_fields' (c : Ctx) (a : Option Nat) :
     (collectGarbage c a).1.highwater = c.highwater ∧ (collectGarbage c a).1.highpassed = c.highpassed ∧
     (collectGarbage c a).1.maxSize = c.maxSize ∧ (collectGarbage c a).1.status = c.status := by
-  unfold collectGarbage
+  rw [collectGarbage_fst]; unfold gcCells
   generalize (List.range (c.size - 1)) = ks
   have : ∀ (ks : List Nat) (acc : Ctx × Option Nat),
       (ks.foldl gcStep acc).1.highwater = acc.1.highwater ∧ (ks.foldl gcStep acc).1.highpassed = acc.1.highpassed ∧
@@ -546,7 +556,7 @@ theorem ruleLoop_bound (p : PassT) (hL : 1 ≤ p.maxLoop) : ∀ (fuel : Nat) (c 
 /-! ## the ghost flag of the loop report through the engine -/
 
 theorem gc_vx (c : Ctx) (a : Option Nat) : (collectGarbage c a).1.vExceeded = c.vExceeded := by
-  unfold collectGarbage
+  rw [collectGarbage_fst]; unfold gcCells
   generalize (List.range (c.size - 1)) = ks
   have : ∀ (ks : List Nat) (acc : Ctx × Option Nat), (ks.foldl gcStep acc).1.vExceeded = acc.1.vExceeded := by
     intro ks
